@@ -123,6 +123,19 @@ def run(tier):
         if sc["meta"]["gcols"] and sc["meta"]["poison"]["drop"] == 1:
             scen.append(sc); made += 1
     seqfam.run_scenarios(res, scen, "TraceBatch", tag="groupby", relayout_p=0.3, retype_p=0.3, rename_p=0.3)
+    # a consumer of the result channel that falls behind (it starts reading when everything has been emitted; tiny channel): the engine
+    # may shed whole batches, but what it delivers are the batches the sink saw - one result row per grouping tuple each, never two
+    # windows' results merged into one batch (TraceChan)
+    hold = []
+    for i in range(30 if quick else 600):
+        n = rng.choice([1, 2, 2, 3])
+        keys = ["A", "B", "C"][:rng.choice([1, 2, 3])]
+        rows = [{"id": j + 1, "k1": rng.choice(keys), "v": rng.choice([1, 2, 3, 5])} for j in range(rng.choice([12, 20, 30]))]
+        meta = {"fam": "batch", "carrier": "counting", "n": n, "gcols": ["k1"], "gout": ["k1"], "gmap": [[]], "aggs": AGGS}
+        hold.append({"meta": meta, "sql": "SELECT k1, %s FROM stream GROUP BY k1, CountingWindow(%d)" % (SEL, n), "rows": rows, "chan": True, "chanhold": True,
+                     "perf": {"reschan": rng.choice([2, 3, 5, 10])}})
+    seqfam.run_scenarios(res, hold, "TraceChan", tag="chanhold")
+    seqfam.run_scenarios(res, hold, "TraceBatch", tag="chanholdb")
     # SELECT DISTINCT removes duplicate ROWS, never a group: a key tuple whose aggregate is not a finite number (0 / 0) keeps its row
     dis = []
     for _ in range(40 if quick else 1500):
